@@ -11,6 +11,11 @@ python3 extract/extract.py > work/extract.json || true
 if [ -d harness/sfw ]; then
   (cd harness/sfw && RUSTUP_TOOLCHAIN=stable-x86_64-unknown-linux-gnu cargo build --offline 2>&1 | tail -2)
 fi
+if [ -x harness/sfw/target/debug/sfw ]; then
+  harness/sfw/target/debug/sfw glue lean/SfVerif/Gen/Glue.lean || true
+  harness/sfw/target/debug/sfw abi lean/SfVerif/Gen/AbiTool.lean || true
+  (cd lean && lake build sfdriver SfVerif 2>&1 | tail -1)
+fi
 cargo +nightly miri setup --target i686-unknown-linux-gnu 2>&1 | tail -1 || true
 (cd harness/sfh && MIRIFLAGS="-Zmiri-permissive-provenance -Zmiri-disable-isolation -Zmiri-disable-stacked-borrows" cargo +nightly miri run --offline --target i686-unknown-linux-gnu --target-dir target-miri -- run < /dev/null 2>&1 | tail -1) || true
 echo setup done
